@@ -1,7 +1,40 @@
+import os
+import re
+
 from runner import Prop, Stream
 
 STATES = {"up", "warning", "down", "broken", "pending", "syncing"}
 KINDS = {"accept", "reject", "rejectplain", "drop", "refuse"}
+# behaviours of the scripted Thruk http backend (harness/inpkg/c15_http.go)
+HTTP_KINDS = KINDS | {"nonjson", "badjson", "status", "rcfail", "remoteerr", "hangup"}
+HTTP_STATUS = {401, 403, 404, 500, 502, 503}
+
+
+def plain_text(msg):
+    return bool(msg) and msg == msg.strip() and "\n" not in msg and "\r" not in msg
+
+
+def valid_behaviour(b, http):
+    kind = b["kind"]
+    if kind not in (HTTP_KINDS if http else KINDS):
+        return False
+    if kind == "reject" and (b.get("code", 0) in (0, 200) or not b.get("msg")):
+        return False
+    if kind == "rejectplain" and (not b.get("msg") or ":" in b["msg"]):
+        return False
+    if kind == "nonjson" and (not plain_text(b.get("msg")) or ":" in b["msg"] or b["msg"][0] == "{"):
+        return False
+    if kind == "status" and b.get("code") not in HTTP_STATUS:
+        return False
+    if kind == "rcfail" and (not isinstance(b.get("code"), int) or b["code"] == 0 or not plain_text(b.get("msg"))):
+        return False
+    if kind == "remoteerr":
+        if not plain_text(b.get("msg")):
+            return False
+        # D-C15-2 (notes/C15.md): this remote error text makes lmd POST the batch again, up to three deliveries
+        if b["msg"].startswith("ERROR: broken pipe.") and not os.environ.get("VERIF_C15_BROKENPIPE"):
+            return False
+    return True
 
 
 def valid(inp):
@@ -12,7 +45,12 @@ def valid(inp):
         ids = [p["id"] for p in peers]
         if len(set(ids)) != len(ids) or any(not i or " " in i for i in ids):
             return False
+        http = any(p.get("transport") for p in peers)
         for p in peers:
+            if p.get("transport", "") not in ("", "http"):
+                return False
+            if p.get("transport") == "http" and not re.match(r"^\d+\.\d+$", p.get("thruk", "")):
+                return False
             if p["state"] not in STATES:
                 return False
             if p["state"] in ("down", "broken", "pending") and p["hasdata"]:
@@ -20,11 +58,7 @@ def valid(inp):
             if p["state"] == "warning" and not p["hasdata"]:
                 return False
             for b in p.get("script") or []:
-                if b["kind"] not in KINDS:
-                    return False
-                if b["kind"] == "reject" and (b.get("code", 0) in (0, 200) or not b.get("msg")):
-                    return False
-                if b["kind"] == "rejectplain" and (not b.get("msg") or ":" in b["msg"]):
+                if not valid_behaviour(b, p.get("transport") == "http"):
                     return False
             for r in p.get("resolve") or []:
                 if r not in STATES:
@@ -38,9 +72,11 @@ def valid(inp):
                 if it["kind"] == "get" and j != len(items) - 1:
                     return False
                 if it["kind"] != "get":
-                    bytes.fromhex(it.get("hex", ""))
+                    raw = bytes.fromhex(it.get("hex", ""))
                     if not it.get("hex"):
                         return False
+                    if http and it["kind"] == "cmd":
+                        raw.decode("utf-8")     # the json envelope of the http transport cannot carry other bytes
                 for b in it.get("backends") or []:
                     if not b or " " in b:
                         return False
@@ -50,7 +86,7 @@ def valid(inp):
             elif not items or items[-1]["kind"] != "get":
                 return False
         return True
-    except (KeyError, TypeError, ValueError, AttributeError):
+    except (KeyError, TypeError, ValueError, AttributeError, IndexError):
         return False
 
 
@@ -60,25 +96,32 @@ PROP = Prop(
     coq_run=["theories/C15/Run.v"],
     streams=[Stream("commands", "c15commands", n_quick=400, n_thorough=6000, shards_thorough=4, valid=valid,
                     what="real lmd listener (NewListener/ClientConnection.Handle) + real peers against scripted "
-                         "backends: command log per backend connection, client reply tokens, final sites.status, "
+                         "backends (Livestatus unix sockets; in a third of the cases one backend is a scripted Thruk "
+                         "http server on a loopback address): command log per backend connection / POST, client reply tokens, final sites.status, "
                          "refresh due (periodicUpdate) vs C15.Model.connection")],
     trusted_base=[
         "Coq 8.16.1 kernel, vm_compute (cases evaluation and the non-vacuity Example); no native_compute",
         "axioms: none (Print Assumptions: closed under the global context, captured per run)",
-        "correspondence harness harness/inpkg/c15_commands.go, the scripted backend harness/inpkg/vbackend.go "
-        "(its command log is the observation) and the cases-file emitter",
+        "correspondence harness harness/inpkg/c15_commands.go, the scripted backends harness/inpkg/vbackend.go and "
+        "harness/inpkg/c15_http.go (their command logs are the observation) and the cases-file emitter",
+        "http transport: the mapping of lmd's error texts to classes (HTTPERR, HTTPSTATUS n, REMOTE rc=n text, JSONERR, TOOOLD) "
+        "and of the scripted answers to the model's RejectPlain/HttpBroken is the harness's; the scripted server disables "
+        "keep-alive (one tcp connection per POST), Go's http client is not modelled",
         "classification of a generated request as COMMAND / malformed is the generator's; lmd's regular expression "
         "`^COMMAND +(\\[\\d+\\].*)$` is exercised, not modelled",
         "modelled, not verified: goroutine scheduling inside ClientConnection.SendCommands (which of several "
         "failing backends is reported: any), the 1s polls of SendCommandsWithRetry and the 9.5s PeerCommandTimeout "
         "(driven by scripted status changes), the EPIPE/ECONNRESET re-send loop of "
-        "getSocketQueryResponseWithTemporaryRetries, HTTP backends, cluster forwarding of commands",
+        "getSocketQueryResponseWithTemporaryRetries, the 'ERROR: broken pipe.' re-POST loop of HTTPQueryWithRetries (D-C15-2), "
+        "https/proxies/several sources of an http backend, cluster forwarding of commands",
     ],
     assumptions=[
         "clients do not pipeline: a GET is the last request of a write and the next write follows its response "
         "(ParseRequests wraps the connection in a fresh bufio.Reader per call, bytes buffered behind a GET are lost)",
         "one source address per backend (source rotation belongs to C13)",
-        "a backend that closes the connection without reading (Drop) is indistinguishable from one that accepted: "
+        "http backends: command arguments are valid UTF-8 (json.Marshal replaces other bytes by U+FFFD) and the remote "
+        "site does not answer 'ERROR: broken pipe.' in output[3] (D-C15-2: lmd POSTs the batch up to three times)",
+        "a socket backend that closes the connection without reading (Drop) is indistinguishable from one that accepted: "
         "lmd reports success and schedules the refresh, the batch is lost (at most once)",
     ],
     gen=False,
